@@ -133,7 +133,7 @@ func (c *Ctx) Report(sig map[string]string, artefact any, name string) bool {
 		return false
 	}
 	c.Violations++
-	dir := filepath.Join(load.VerifDir(), "replays", c.ID)
+	dir := filepath.Join(load.OutDir(), "replays", c.ID)
 	_ = os.MkdirAll(dir, 0o755)
 	path := filepath.Join(dir, name+".json")
 	data, _ := json.MarshalIndent(map[string]any{"property": c.ID, "signature": sig, "artefact": artefact}, "", " ")
@@ -189,7 +189,7 @@ func (c *Ctx) Finish(machineryErr error) int {
 		"wall_s":      time.Since(c.Start).Seconds(),
 		"violations":  c.Violations,
 	}
-	dir := filepath.Join(load.VerifDir(), "evidence")
+	dir := filepath.Join(load.OutDir(), "evidence")
 	_ = os.MkdirAll(dir, 0o755)
 	data, _ := json.MarshalIndent(ev, "", " ")
 	if err := os.WriteFile(filepath.Join(dir, c.ID+".json"), data, 0o644); err != nil {
